@@ -14,6 +14,7 @@
 package main
 
 import (
+	"encoding/json"
 	"fmt"
 	"os"
 	"sort"
@@ -75,13 +76,18 @@ func main() {
 		partBWorker(os.Args[2:])
 		return
 	}
+	for i, a := range os.Args {
+		if (a == "-replay" || a == "--replay") && i+1 < len(os.Args) {
+			replaySequential(os.Args[i+1]) // returns if the file is a schedule replay (part C)
+		}
+	}
 	vx.Main(vx.Config{
 		Property: "C04",
 		Level:    "model_checking",
 		Rule: "A(i): every membership matrix of 3 sockets x 3 rooms (built with AddAll on the real in-memory adapter) x every (T,E) of room subsets x {adapter.Broadcast, adapter.FetchSockets, BroadcastOperator.To.Except.Emit, BroadcastOperator.FetchSockets} (+ Sockets(T)) against the reference selection, each recipient exactly once; " +
 			"A(ii): BFS over AddAll/Delete/DeleteAll/AddSockets/DelSockets/DisconnectSockets histories replayed on fresh real adapters, deduplicated by the adapter's raw indexes, with index invariants, reference model and differential broadcast answers; " +
 			"B: BFS over Join/Leave/Disconnect/client-DISCONNECT/SocketsJoin/SocketsLeave/DisconnectSockets histories on a real server with 3 real sockets over rig R1 (one vsched.Run per replay), every (T,E) broadcast through the namespace and through every socket, EVENT frames counted per connection; " +
-			"C: Broadcast(T,E) racing one or two of AddAll/Delete/DeleteAll on the real adapter, every interleaving (happens-before pruned), interval oracle. " +
+			"C: one thread Broadcast(T,E) racing one or two threads doing one AddAll/Delete/DeleteAll each on the real adapter (3 sockets x 2 rooms, 2-4 initial matrices, every (T,E), one scenario per mutator choice): every interleaving (happens-before pruned) for single mutators; pairs of mutators on one socket up to 2 preemptions (quick) or every interleaving, plus every pair on different sockets on one matrix (thorough); interval oracle. " +
 			"distinct_nontrivial counts matrices with >= 1 membership x (T,E) with T or E non-empty (A.i), distinct histories of length >= 2 (A.ii, B) and deviating schedules (C)",
 		Scenarios: func(tier string) []*vx.Scenario {
 			if !strings.Contains(parts(), "c") {
@@ -91,9 +97,9 @@ func main() {
 		},
 		Budget: func(tier string) time.Duration {
 			if tier == "thorough" {
-				return 6 * time.Minute
+				return 9 * time.Minute
 			}
-			return 40 * time.Second
+			return 60 * time.Second
 		},
 		Extra: func(tier string, r *vx.Report) {
 			summarizeC(r)
@@ -117,4 +123,74 @@ func main() {
 	})
 }
 
-func fmtf(format string, a ...any) string { return fmt.Sprintf(format, a...) }
+type recorder func(key, msg string)
+
+func (f recorder) Violate(key, msg string, replay any) { f(key, msg) }
+
+// replaySequential re-runs the case of a replay file written by part A or B and exits (1 if the
+// recorded violation occurs again, 0 if not). Files of part C are left to vx.Main.
+func replaySequential(path string) {
+	b, err := os.ReadFile(path)
+	if err != nil {
+		fmt.Fprintln(os.Stderr, err)
+		os.Exit(2)
+	}
+	var f struct {
+		Key    string `json:"key"`
+		Replay struct {
+			Part     string  `json:"part"`
+			Variant  string  `json:"variant"`
+			Present  [3]bool `json:"present"`
+			Rows     [3]int  `json:"rows"`
+			Univ     int     `json:"univ"`
+			Ops      json.RawMessage
+			SetupOps []bop `json:"setup_ops"`
+			NRooms   int   `json:"named_rooms"`
+		} `json:"replay"`
+	}
+	if err := json.Unmarshal(b, &f); err != nil {
+		fmt.Fprintln(os.Stderr, err)
+		os.Exit(2)
+	}
+	hit := false
+	report := func(key, msg string) {
+		fmt.Printf("violation key=%q: %s\n", key, msg)
+		hit = hit || key == f.Key
+	}
+	r := recorder(report)
+	switch f.Replay.Part {
+	case "A.i":
+		evalMatrix(f.Replay.Variant, amodel{present: f.Replay.Present, rows: f.Replay.Rows}, f.Replay.Univ, r, &aStats{})
+	case "A.ii":
+		var ops []aopJ
+		json.Unmarshal(f.Replay.Ops, &ops)
+		var hist []aop
+		for _, o := range ops {
+			hist = append(hist, aop{o.Kind, o.S, o.Rooms, o.T, o.E})
+		}
+		if len(ops) == 0 && len(f.Replay.Ops) == 0 {
+			fmt.Println("this violation compares two histories; replay each history of the message by hand")
+			os.Exit(2)
+		}
+		replayA(hist, r)
+	case "B":
+		var hist []bop
+		json.Unmarshal(f.Replay.Ops, &hist)
+		out := &bOut{}
+		replayB(0, bItem{f.Replay.NRooms, f.Replay.SetupOps, hist}, out)
+		for _, v := range out.Violations {
+			report(v.Key, v.Msg)
+		}
+		for _, h := range out.HarnessErrs {
+			fmt.Println("HARNESS-ERROR", h)
+		}
+	default:
+		return
+	}
+	if hit {
+		fmt.Printf("VIOLATION property=C04 replay=%s\n", path)
+		os.Exit(1)
+	}
+	fmt.Println("the recorded violation does not occur on this tree")
+	os.Exit(0)
+}
